@@ -97,7 +97,9 @@ func (w *WebsocketConnection) writeShipPump() {
 	ticker := time.NewTicker(pingPeriod)
 	defer func() {
 		ticker.Stop()
-		close(w.shipWriteChannel)
+		// the write channel is never closed: a writer that already passed its closed-check would
+		// panic on it. Closing the connection releases pending writers via the close channel instead.
+		w.close()
 	}()
 
 	for {
@@ -266,8 +268,13 @@ func (w *WebsocketConnection) WriteMessageToWebsocketConnection(message []byte) 
 		return errors.New(connIsClosedError)
 	}
 
-	w.shipWriteChannel <- message
-	return nil
+	select {
+	case w.shipWriteChannel <- message:
+		return nil
+	case <-w.closeChannel:
+		// the connection got closed while waiting for space in the queue
+		return errors.New(connIsClosedError)
+	}
 }
 
 // make sure websocket Write is only called once at a time
